@@ -44,6 +44,11 @@ def corpus_G(prop):
     return load("G_" + prop)
 
 
+def corpus_D():
+    """programs (with instance-derived universes) of the demonstrations of the seeded changes"""
+    return [dict(e, outs=None) for e in load("D") if e.get("prop") not in ("C18", "C19")]
+
+
 FAM_TRAIT = {"C08": "cleanup", "C09": "unused", "C10": "duplication", "C11": "symmetry", "C12": "minmax_chains", "C13": "sum_chains",
              "C14": "math", "C15": "inline", "C16": "projection"}
 G_PASS_FAMILIES = ["C05", "C08", "C09", "C10", "C11", "C12", "C13", "C14", "C15", "C16"]
@@ -83,7 +88,7 @@ def tasks_single(prop, tier, seed):
     cfg = SINGLE[prop]
     tr = cfg["trait"]
     tasks = []
-    entries = corpus_T([tr]) + corpus_G(prop)
+    entries = corpus_T([tr]) + corpus_G(prop) + corpus_D()
     if tier == "thorough":
         entries += [e for e in corpus_T() if e["trait"] not in (tr, "ast", "global")]
     for e in entries:
@@ -106,7 +111,7 @@ def tasks_single(prop, tier, seed):
 
 def tasks_C05(tier, seed):
     tasks = []
-    entries = corpus_T(["none"]) + corpus_G("C05")
+    entries = corpus_T(["none"]) + corpus_G("C05") + corpus_D()
     entries += [e for e in corpus_T() if e["trait"] not in ("none", "global")] if tier == "thorough" else [e for e in corpus_T(["regression", "ast", "dependency", "math", "minmax_chains", "inline"])]
     for e in entries:
         tasks.append(base_task(dict(e, out=[]), "none", "voc", tier, one_to_one=True, open_all=True))
@@ -116,9 +121,9 @@ def tasks_C05(tier, seed):
 def tasks_C06(tier, seed):
     rnd = random.Random(seed)
     tasks = []
-    for e in corpus_T(AUX_ONLY + ["regression"]) + corpus_G("C06") + [e for e in corpus_G("C01") if e.get("V") != "show"] + corpus_G("C16") + corpus_G_all(tier, 0, 3, skip=("C09", "C15", "C05", "C16")):
+    for e in corpus_T(AUX_ONLY + ["regression"]) + corpus_G("C06") + corpus_D() + [e for e in corpus_G("C01") if e.get("V") != "show"] + corpus_G("C16") + corpus_G_all(tier, 0, 3, skip=("C09", "C15", "C05", "C16")):
         cfgs = [AUX_ONLY]
-        tr = e.get("trait") or FAM_TRAIT.get(e["id"].split("-")[1])
+        tr = e.get("trait") or FAM_TRAIT.get(e.get("prop") or e["id"].split("-")[1])
         if tr in AUX_ONLY:
             rest = [t for t in AUX_ONLY if t != tr]
             cfgs.append(sorted([tr] + rnd.sample(rest, 2)))
@@ -134,11 +139,11 @@ def tasks_C06(tier, seed):
 def tasks_C01(tier, seed, only_opt=False, costs=False):
     rnd = random.Random(seed)
     tasks = []
-    core = [e for e in corpus_T() if e["trait"] not in ("ast", "global", "dependency")] + corpus_G("C01")
+    core = [e for e in corpus_T() if e["trait"] not in ("ast", "global", "dependency")] + corpus_G("C01") + corpus_D()
     wide = corpus_G_all(tier, 0, 4)
     if only_opt:
         has_opt = lambda e: ":~" in e["text"] or "#minimi" in e["text"] or "#maximi" in e["text"]  # noqa
-        core = [e for e in corpus_T() + corpus_G("C02") + corpus_G("C01") if has_opt(e)]
+        core = [e for e in corpus_T() + corpus_G("C02") + corpus_G("C01") + corpus_D() if has_opt(e)]
         wide = [e for f in ("C11", "C12", "C13", "C15", "C09", "C10", "C14", "C08") for e in corpus_G(f) if has_opt(e)]
     n_core = len(core)
     for i, e in enumerate(core + wide):
@@ -161,10 +166,10 @@ def tasks_C01(tier, seed, only_opt=False, costs=False):
 
 def tasks_C04(tier, seed):
     tasks = []
-    entries = [e for e in corpus_T() if e["trait"] not in ("ast", "global", "dependency")] + corpus_G("C04") + corpus_G_all(tier, 0, 2)
+    entries = [e for e in corpus_T() if e["trait"] not in ("ast", "global", "dependency")] + corpus_G("C04") + corpus_D() + corpus_G_all(tier, 0, 2)
     for e in entries:
         hs = [list(x) for x in head_sigs(e["text"])]
-        tr = e.get("trait") or FAM_TRAIT.get(e["id"].split("-")[1])
+        tr = e.get("trait") or FAM_TRAIT.get(e.get("prop") or e["id"].split("-")[1])
         cfgs = ["all"] + ([[tr]] if tr in TRAITS else []) + (["default"] if not e["id"].startswith("T-") else [])
         if tier == "thorough":
             cfgs += ["default", "none"]
